@@ -5,12 +5,6 @@ From SV Require Import Lib.Base C18.Model C18.RefProofs.
 From Coq Require Import Lia.
 Arguments getn : simpl never.
 
-Definition aty1 (l : list attr) : option attr :=
-  match get_ns NM_ATY NS_ENC l with
-  | Some a => if one_dim a then Some a else None
-  | None => None
-  end.
-
 Definition with_attrs (l : list attr) (nd : node) : node :=
   mkN (n_ns nd) (n_name nd) l (n_text nd) (n_kids nd).
 
@@ -390,8 +384,7 @@ Proof.
   { intros data. rewrite Eaty. apply post_ext; cbn; auto.
     unfold nokids. cbn. rewrite Ekids.
     pose proof (all_some_length _ _ Eks) as L. rewrite map_length in L.
-    destruct aopt; [rewrite map_length|]; rewrite map_length;
-      destruct (n_kids (getn h0 n)), ks; cbn in *; try discriminate; reflexivity. }
+    destruct aopt; destruct (n_kids (getn h0 n)), ks; cbn in *; try discriminate; reflexivity. }
   destruct res as [data|e]; injection Ed as <- <-.
   - split; [exact S2|split; [exact (stable_trans _ _ _ St1 St2)|]]. rewrite Epost. reflexivity.
   - split; [exact S2|split; [exact (stable_trans _ _ _ St1 St2)|reflexivity]].
